@@ -40,7 +40,9 @@ def plan(tier):
                  ([("bounded", 3, 6, 8)], [CONF_Q[0], CONF_Q[2], CONF_Q[5], CONF_Q[6], CONF_Q[7],
                                            CONF_Q[10]])]
     else:
-        specs = [([("dense", 1, 7)], CONF_T), ([("bounded", 4, 8, 11)], CONF_Q)]
+        specs = [([("dense", 1, 6)], CONF_T), ([("dense", 7, 7)], CONF_Q[::2]),
+                 ([("bounded", 3, 8, 10)], [CONF_Q[0], CONF_Q[2], CONF_Q[5], CONF_Q[6], CONF_Q[7],
+                                            CONF_Q[10]])]
     tasks, descs = [], []
     for regimes, conf in specs:
         tasks += pairs.regime_tasks(2, regimes, ["py", "pyx"], extra={"conf": conf})
